@@ -230,6 +230,11 @@ func c17Oracle(in c17In) probe.Outcome {
 				return probe.Fail("%s: long-lived and fresh SA decode an authentic but malformed message differently", step)
 			}
 			rejected = eL != nil
+		case "print":
+			// logging the long-lived SA (String(), %v) between two operations changes nothing
+			if err := probe.Try(func() error { _ = L.String(); _ = fmt.Sprintf("%v", L); return nil }); err != nil {
+				return probe.Fail("%s: printing the SA: %v", step, err)
+			}
 		case "derive-child":
 			kL, err := deriveChild(L, op.ChildE, op.ChildI, op.Nonce)
 			if err != nil {
@@ -260,7 +265,7 @@ func c17Oracle(in c17In) probe.Outcome {
 
 func c17GenOp(t *rapid.T, small gen.Opts) c17Op {
 	op := c17Op{AsI: rapid.Bool().Draw(t, "asI"), WithHdr: rapid.Bool().Draw(t, "withhdr")}
-	switch gen.Pick(t, "op", 3, 3, 2, 2, 2, 2, 2) {
+	switch gen.Pick(t, "op", 6, 6, 4, 4, 4, 4, 4, 1) {
 	case 0:
 		op.Op, op.Msg = "protect", gen.Message(t, small)
 	case 1:
@@ -284,6 +289,9 @@ func c17GenOp(t *rapid.T, small gen.Opts) c17Op {
 		} else {
 			op.Garbage = gen.RawBytes(t, "garbage", 300)
 		}
+	case 7:
+		op.Op = "print"
+		return op
 	case 6:
 		op.Op = "unprotect-authentic-malformed"
 		op.Garbage = gen.Fill(t, "body", gen.Len(t, "bodylen", 0, 120, 0, 1, 15, 16, 17, 31, 32, 33, 48))
